@@ -21,6 +21,9 @@ void myth_internal_barrier_destroy(myth_internal_barrier_t * b) {
 }
 
 void myth_internal_barrier_wait(myth_internal_barrier_t * b) {
+#if defined(MYTH_VERIF)
+  if (myth_verif_barrier_wait(b, b->n_threads)) return;
+#endif
   real_pthread_mutex_lock(b->mutex);
   {
     int n_threads = b->n_threads;
